@@ -1,6 +1,6 @@
 /-
   Tie of translated functions of `/repo/util/fsutil/path.go`, `/repo/util/netutil/ip.go`,
-  `/repo/httpd/store.go`, `/repo/httpd/…` (GetClientIP) and the ansi helpers
+  `/repo/httpd/store.go` (`Params.Get`, `GetClientIP`) and `/repo/ansi/terminfo.go` (`ScrollUpN/DownN`)
   (Glb/Generated/Tr{Fsutil,Netutil,Httpd,Ansi}.lean, regenerated from the Go source on every run) to the
   hand-written models.  Every theorem is `translated function = model` for every input.
 -/
@@ -13,28 +13,13 @@ import Glb.Model.AuxNetutil
 import Glb.Generated.TrHttpd
 import Glb.Model.Router
 import Glb.Model.AuxHttpd
+import Glb.Generated.TrAnsi
+import Glb.Model.AuxFsutil
+import Glb.Proofs.AuxFsutil
+import Glb.Proofs.PathCleanBytes
 
 namespace Glb.Tie.TrMisc
 open Glb.Go
-
-/-! ### fsutil.ResolveUrlPath -/
-
-theorem ResolveUrlPath_eq (base url : Bytes) :
-    Glb.Tr.Fsutil.ResolveUrlPath base url = .ok (Glb.PathCleanBytes.resolveUrlPathB base url) := by
-  unfold Glb.Tr.Fsutil.ResolveUrlPath
-  cases url with
-  | nil =>
-    simp [bind, Except.bind, pure, Except.pure, Glb.PathCleanBytes.resolveUrlPathB,
-      Glb.PathClean.forceSlash, Glb.PathClean.fromSlash, LibPath.join2, LibPath.fromSlash, LibPath.clean,
-      Glb.PathClean.slash]
-  | cons c t =>
-    by_cases h : c = 47
-    · simp [bind, Except.bind, pure, Except.pure, Glb.PathCleanBytes.resolveUrlPathB,
-        Glb.PathClean.forceSlash, Glb.PathClean.fromSlash, LibPath.join2, LibPath.fromSlash, LibPath.clean,
-        Glb.PathClean.slash, idxI, Glb.idx?, h]
-    · simp [bind, Except.bind, pure, Except.pure, Glb.PathCleanBytes.resolveUrlPathB,
-        Glb.PathClean.forceSlash, Glb.PathClean.fromSlash, LibPath.join2, LibPath.fromSlash, LibPath.clean,
-        Glb.PathClean.slash, idxI, Glb.idx?, h]
 
 /-! ### netutil.SplitHostPort
 
@@ -312,5 +297,175 @@ theorem GetClientIP_eq (h : Header) (remote : Bytes) :
         simpa using slice_nat (get h xForwardedFor) 0 i
   · simp [h1]
 end GetClientIP
+
+/-! ### netutil.LastIP
+
+  The translated function takes `masked` = the (non-nil) result of `cidr.IP.Mask(cidr.Mask)` as a
+  parameter.  Exact equality with the model's loop, index panics (and their payloads) included. -/
+
+section LastIP
+open Glb.Aux.Net
+
+private theorem lt_of_idx?_ok {α} (s : List α) (n : Nat) (b : α) (h : Glb.idx? s n = .ok b) : n < s.length := by
+  rcases Nat.lt_or_ge n s.length with h1 | h1
+  · exact h1
+  · have : s[n]? = none := by simp; omega
+    simp [Glb.idx?, this] at h
+
+theorem LastIP_eq (masked mask : Bytes) :
+    Glb.Tr.Netutil.LastIP masked mask = lastIPLoop mask mask.length masked := by
+  unfold Glb.Tr.Netutil.LastIP
+  dsimp only
+  rw [loop_eq (σ := Bytes × Int) (ρ := Bytes)
+    (Inv := fun st => -1 ≤ st.2)
+    (measure := fun st => (st.2 + 1).toNat)
+    (model := fun st => match lastIPLoop mask (st.2 + 1).toNat st.1 with
+      | .ok r => .ok (.inl (r, -1))
+      | .error e => .error e)]
+  · simp only [bind, Except.bind, pure, Except.pure, len_eq]
+    have : ((mask.length : Int) - 1 + 1).toNat = mask.length := by omega
+    rw [this]
+    cases lastIPLoop mask mask.length masked <;> rfl
+  · intro ⟨ip, i⟩ h0
+    simp only at h0
+    simp only [StepOK, pure, Except.pure]
+    by_cases hi : i ≥ 0
+    · obtain ⟨n, rfl⟩ : ∃ n : Nat, i = n := ⟨i.toNat, by omega⟩
+      have e1 : ((n : Int) + 1).toNat = n + 1 := by omega
+      have e2 : ((n : Int) - 1 + 1).toNat = n := by omega
+      simp only [hi, decide_true, idx_int, idxI_nat, bind, Except.bind, e1, lastIPLoop]
+      cases hb : Glb.idx? ip n with
+      | error e => simp
+      | ok b =>
+        cases hm : Glb.idx? mask n with
+        | error e => simp
+        | ok m =>
+          have hn := lt_of_idx?_ok ip n b hb
+          simp [Glb.Go.set, hn]
+          omega
+    · have : i = -1 := by omega
+      subst this
+      simp [lastIPLoop]
+  · simp only [len_eq]; omega
+  · simp only [len_eq]; omega
+
+/-- `Glb.Aux.Net.lastIP` (the whole `LastIP(cidr)`, with `cidr.IP.Mask(cidr.Mask)` modelled by `ipMask`;
+    a nil result of `Mask` is the empty slice for the loop) expressed with the translated loop -/
+theorem lastIP_eq (ip mask : Bytes) :
+    lastIP ip mask =
+      match ipMask ip mask with
+      | none => (fun _ => none) <$> Glb.Tr.Netutil.LastIP [] mask
+      | some r => some <$> Glb.Tr.Netutil.LastIP r mask := by
+  unfold lastIP
+  simp only [LastIP_eq]
+  cases ipMask ip mask with
+  | none => simp only []; cases lastIPLoop mask mask.length [] <;> rfl
+  | some r => simp only []; cases lastIPLoop mask mask.length r <;> rfl
+end LastIP
+
+/-! ### fsutil.ExpandHomeDir
+
+  The translated function takes the result of `os.UserHomeDir()` as the parameters `home`, `homeErr`
+  (`homeErr` = "err != nil"); the model computes it from `$HOME` (`userHomeDir`).  `filepath.Clean/Join`
+  of the translated code are the byte algorithm (`Glb.Go.LibPath`), those of the model the segment
+  model; they are equal by `cleanBytes_eq` / `joinB_eq` (Proofs/PathCleanBytes).  Exact equality;
+  neither side panics. -/
+
+section ExpandHomeDir
+open Glb.Aux.Home
+
+theorem ExpandHomeDir_eq_cases (home raw : Bytes) :
+    Glb.Tr.Fsutil.ExpandHomeDir raw (userHomeDir home).1 (userHomeDir home).2
+      = .ok (expandHomeDir home raw) := by
+  unfold Glb.Tr.Fsutil.ExpandHomeDir expandHomeDir userHomeDir
+  simp only [LibPath.clean, LibPath.join2, Glb.PathCleanBytes.cleanBytes_eq, Glb.PathCleanBytes.joinB_eq]
+  match raw with
+  | [] => simp [bind, Except.bind, pure, Except.pure, expands]
+  | [c] =>
+    by_cases hc : c = 126
+    · by_cases hh : home = []
+      · simp [bind, Except.bind, pure, Except.pure, expands, idxI, Glb.idx?, hc, hh, tilde]
+      · simp [bind, Except.bind, pure, Except.pure, expands, idxI, Glb.idx?, hc, hh, tilde]
+    · simp [bind, Except.bind, pure, Except.pure, expands, idxI, Glb.idx?, hc, tilde]
+  | c :: d :: t =>
+    have hsf : sliceFrom (c :: d :: t) 1 = .ok (d :: t) := by
+      have := sliceFrom_nat (c :: d :: t) 1
+      simp [Glb.slice?] at this
+      simpa using this
+    have hlen : (1 : Int) < (t.length : Int) + 1 + 1 := by omega
+    have hlen1 : ¬ ((t.length : Int) + 1 + 1 = 1) := by omega
+    have hlen0 : ¬ ((t.length : Int) + 1 + 1 = 0) := by omega
+    by_cases hc : c = 126
+    · subst hc
+      by_cases hd : d = 47
+      · subst hd
+        by_cases hh : home = []
+        · simp [bind, Except.bind, pure, Except.pure, expands, idxI, Glb.idx?, hh, tilde, hlen, hlen0, Glb.PathClean.slash]
+        · simp [bind, Except.bind, pure, Except.pure, expands, idxI, Glb.idx?, hh, tilde, hsf, hlen, hlen1, hlen0, Glb.PathClean.slash]
+      · by_cases hd2 : d = 92
+        · subst hd2
+          by_cases hh : home = []
+          · simp [bind, Except.bind, pure, Except.pure, expands, idxI, Glb.idx?, hh, tilde, hlen, hlen0, Glb.PathClean.slash, backslash]
+          · simp [bind, Except.bind, pure, Except.pure, expands, idxI, Glb.idx?, hh, tilde, hsf, hlen, hlen1, hlen0, Glb.PathClean.slash, backslash]
+        · simp [bind, Except.bind, pure, Except.pure, expands, idxI, Glb.idx?, hd, hd2, tilde, hlen, hlen0, Glb.PathClean.slash, backslash]
+    · simp [bind, Except.bind, pure, Except.pure, expands, idxI, Glb.idx?, hc, tilde, hlen0]
+
+/-- against the literal model (checked indices): neither side panics -/
+theorem ExpandHomeDir_eq (home raw : Bytes) :
+    Glb.Tr.Fsutil.ExpandHomeDir raw (userHomeDir home).1 (userHomeDir home).2
+      = expandHomeDir? home raw := by
+  rw [ExpandHomeDir_eq_cases, Glb.Aux.Home.expandHomeDir_eq]
+end ExpandHomeDir
+
+/-! ### ansi.ScrollUpN / ScrollDownN
+
+  Total: `n.toNat` copies of ESC M / ESC D for every `n` (the guard `n <= 0` keeps
+  `strings.Repeat` from its negative-count panic). -/
+
+section Ansi
+
+/-- `n` copies of the two-byte sequence `[a, b]` -/
+def copies (a b : UInt8) (n : Nat) : Bytes := (List.replicate n ([a, b] : Bytes)).flatten
+
+theorem copies_length (a b : UInt8) (n : Nat) : (copies a b n).length = 2 * n := by
+  induction n with
+  | zero => rfl
+  | succ n ih =>
+    have : copies a b (n + 1) = a :: b :: copies a b n := by simp [copies, List.replicate_succ]
+    rw [this]; simp [ih]; omega
+
+/-- never panics; `n.toNat` copies of ESC M (none for `n ≤ 0`) -/
+theorem ScrollUpN_eq (n : Int) : Glb.Tr.Ansi.ScrollUpN n = .ok (copies 27 77 n.toNat) := by
+  unfold Glb.Tr.Ansi.ScrollUpN
+  by_cases h : n ≤ 0
+  · have : n.toNat = 0 := by omega
+    simp [h, this, copies, pure, Except.pure]
+  · have h' : ¬ n < 0 := by omega
+    simp [h, h', Lib.repeatBytes, copies]
+
+theorem ScrollDownN_eq (n : Int) : Glb.Tr.Ansi.ScrollDownN n = .ok (copies 27 68 n.toNat) := by
+  unfold Glb.Tr.Ansi.ScrollDownN
+  by_cases h : n ≤ 0
+  · have : n.toNat = 0 := by omega
+    simp [h, this, copies, pure, Except.pure]
+  · have h' : ¬ n < 0 := by omega
+    simp [h, h', Lib.repeatBytes, copies]
+
+theorem ScrollUpN_nonpos (n : Int) (h : n ≤ 0) : Glb.Tr.Ansi.ScrollUpN n = .ok [] := by
+  rw [ScrollUpN_eq, show n.toNat = 0 by omega]; rfl
+
+theorem ScrollDownN_nonpos (n : Int) (h : n ≤ 0) : Glb.Tr.Ansi.ScrollDownN n = .ok [] := by
+  rw [ScrollDownN_eq, show n.toNat = 0 by omega]; rfl
+
+/-- for `n ≥ 0` the result is `n` copies of ESC M and has length `2 * n` -/
+theorem ScrollUpN_nat (n : Nat) :
+    ∃ r, Glb.Tr.Ansi.ScrollUpN (n : Int) = .ok r ∧ r = copies 27 77 n ∧ r.length = 2 * n :=
+  ⟨_, by rw [ScrollUpN_eq]; rfl, rfl, copies_length _ _ _⟩
+
+theorem ScrollDownN_nat (n : Nat) :
+    ∃ r, Glb.Tr.Ansi.ScrollDownN (n : Int) = .ok r ∧ r = copies 27 68 n ∧ r.length = 2 * n :=
+  ⟨_, by rw [ScrollDownN_eq]; rfl, rfl, copies_length _ _ _⟩
+
+end Ansi
 
 end Glb.Tie.TrMisc
